@@ -5,6 +5,8 @@ import (
 	"math/rand"
 	"strconv"
 	"strings"
+	"sync"
+	"sync/atomic"
 	"time"
 
 	"github.com/hashicorp/serf/serf"
@@ -58,6 +60,90 @@ RESP:
 		return strings.Join(l, ",")
 	}
 	return fmt.Sprintf("a=%s r=%s closed=%s%s", j(as), j(rs), ca, cr)
+}
+
+// c07Race: free-running, 8 independent workers.  Per round a fresh query (acks requested, roomy channels) is registered through the
+// real registerQueryResponse; one goroutine delivers acks and responses of distinct senders the way the
+// memberlist packet handler does (Delegate.NotifyMsg, messages encoded beforehand), another
+// calls the public QueryResponse.Close() at a varying moment.  A reply must be delivered or dropped: a send
+// on a closed stream panics ("send on closed channel") and is reported; so is a sender seen twice.
+func c07Race(n *qnode, rounds int) string {
+	const perRound = 96 // small: every query object stays referenced by its (one hour) timer
+	const workers = 8
+	names := make([]string, perRound)
+	for i := range names {
+		names[i] = "r" + strconv.Itoa(i)
+	}
+	var firstBad atomic.Value
+	t0 := time.Now()
+	var all sync.WaitGroup
+	for w := 0; w < workers; w++ {
+		all.Add(1)
+		go func(w int) {
+			defer all.Done()
+			// a worker uses one Lamport time and id for all its rounds (the previous round's query is closed and
+			// deregistered), so the wire messages are encoded once and the delivery loop is tight
+			lt, id := serf.LamportTime(1000001+w), uint32(77+w)
+			msgs := make([][]byte, perRound)
+			for i := range msgs {
+				msgs[i] = serf.VerifEncodeQueryResponse(lt, id, names[i], i%2 == 0, nil)
+			}
+			lateResp := serf.VerifEncodeQueryResponse(lt, id, "late", false, nil)
+			lateAck := serf.VerifEncodeQueryResponse(lt, id, "late", true, nil)
+			deliver := func(raw []byte) {
+				defer func() {
+					if r := recover(); r != nil {
+						firstBad.CompareAndSwap(nil, "panic:"+strings.ReplaceAll(fmt.Sprint(r), " ", "-"))
+					}
+				}()
+				n.msg(raw)
+			}
+			for round := 1; round <= rounds/workers && firstBad.Load() == nil && time.Since(t0) < 20*time.Second; round++ {
+				q := serf.VerifRegisterQuery2(n.s, 2*perRound, lt, id, true, time.Hour, time.Hour)
+				started := make(chan struct{})
+				done := make(chan struct{})
+				go func() {
+					defer close(done)
+					<-started
+					for spin := 0; spin < (round%64)*20; spin++ {
+						_ = q.Finished()
+					}
+					q.Close()
+					q.Close()
+				}()
+				close(started)
+				for i := 0; i < perRound; i++ {
+					deliver(msgs[i])
+					if q.Finished() {
+						deliver(lateResp)
+						deliver(lateAck)
+						break
+					}
+				}
+				<-done
+				serf.VerifCloseQuery(n.s, q) // deregister (Close is idempotent)
+				seen := map[string]bool{}
+				for r := range q.ResponseCh() {
+					if seen[r.From] {
+						firstBad.CompareAndSwap(nil, "dup:response-"+hexs(r.From))
+					}
+					seen[r.From] = true
+				}
+				seenA := map[string]bool{}
+				for a := range q.AckCh() {
+					if seenA[a] {
+						firstBad.CompareAndSwap(nil, "dup:ack-"+hexs(a))
+					}
+					seenA[a] = true
+				}
+			}
+		}(w)
+	}
+	all.Wait()
+	if p := firstBad.Load(); p != nil {
+		return fmt.Sprint(p)
+	}
+	return "ok"
 }
 
 // c07Exec: a real timer that fired before the case reached its `sleep` op (a stalled machine) makes the
@@ -134,6 +220,13 @@ func c07ExecOnce(ops []string) (outs []string, premature bool) {
 			lt, id := serf.VerifQueryIdent(objs[i].resp)
 			n.msg(serf.VerifEncodeQueryResponse(lt, id, string(from), f[3] == "1", []byte(f[4])))
 			outs = append(outs, "ok")
+		case len(f) == 2 && f[0] == "race":
+			rounds, err := strconv.Atoi(f[1])
+			if err != nil || rounds < 0 || rounds > 1000000 {
+				outs = append(outs, "bad-op")
+				continue
+			}
+			outs = append(outs, c07Race(n, rounds))
 		case len(f) == 2 && f[0] == "close":
 			i, err := strconv.Atoi(f[1])
 			if err != nil || i < 0 {
@@ -313,6 +406,11 @@ func c07Gen(rng *rand.Rand, tier string) []Case {
 	for i := 0; i < nSleep; i++ {
 		out = append(out, mk(fmt.Sprintf("t%d", i), true))
 	}
+	raceRounds := 8000
+	if tier == "thorough" {
+		raceRounds = 80000
+	}
+	out = append(out, Case{ID: "race", Ops: []string{fmt.Sprintf("race %d", raceRounds)}, Nontrivial: true, Tags: []string{"race"}})
 	return out
 }
 
@@ -321,7 +419,7 @@ func init() {
 		ID: "C07",
 		Rule: "each case = one real node; 1–5 concurrently open queries registered through the real newQueryResponse/registerQueryResponse (Lamport times from {5,6,7} so that times are shared and map entries overwritten; ids from 3 values; with/without acks; channel capacity 1–3; deadline far or already over) or through the real s.Query; " +
 			"6–30 steps: replies injected through NotifyMsg (matching, wrong id, wrong time, duplicates, acks to queries without acks, 5 sender names incl. empty), closes (body of the timer closure, also repeated), drains of AckCh/ResponseCh; real-timer cases let 120 ms timers fire and send replies afterwards; " +
-			"non-trivial = the case has a duplicate, a mismatching id/time and a reply after a close/deadline; distinct = distinct op sequence. Interleavings of the timer with the individual steps of handleQueryResponse are not driven on the real code (theorems only)",
+			"non-trivial = the case has a duplicate, a mismatching id/time and a reply after a close/deadline; distinct = distinct op sequence. one free-running race case: 8000 (thorough 80000) rounds over 8 concurrently open queries, each with reply delivery by one goroutine against the public Close() from another (stops at the first send on a closed stream, 20 s cap). Interleavings of the timer with the individual steps of handleQueryResponse are not driven on the real code (theorems only)",
 		Gen:  c07Gen,
 		Exec: c07Exec,
 	})
